@@ -63,6 +63,9 @@ func (s *_watchSession) done() <-chan struct{} {
 }
 
 func (s *_watchSession) stop() {
+	// cancel the session context first: run() may still be inside
+	// client.Watch(), which returns only once its context is cancelled.
+	s.cancel()
 	s.lc.ShutdownAsync(nil)
 }
 
